@@ -406,7 +406,10 @@ LOOPS = [{}, {"iterations": 5}, {"warmup-iterations": 2, "iterations": 3}, {"tim
          {"warmup-time-period": 4, "time-period": 10, "ramp-up-time-period": 2}]
 THR = [{}, {"target-throughput": 10}, {"target-throughput": "5 docs/s"}, {"target-interval": 0.5}]
 TAGS = [{}, {"tags": "a"}, {"tags": ["a", "b"]}]
-OPFORMS = ["op-search", {"operation-type": "search", "name": "inline-search", "body": {}}, "force-merge", {"operation-type": "bulk", "bulk-size": 500}]
+OPFORMS = ["op-search", {"operation-type": "search", "name": "inline-search", "body": {}}, "force-merge", {"operation-type": "bulk", "bulk-size": 500},
+           # the documented way to force (or suppress) reporting, against the default of the operation type
+           {"operation-type": "force-merge", "name": "fm-reported", "include-in-reporting": True},
+           {"operation-type": "search", "name": "search-hidden", "body": {}, "include-in-reporting": False}]
 
 
 def task_models(tier):
